@@ -336,21 +336,31 @@ fn seq_of<T: Elem>(it: impl IntoIterator<Item = T>) -> Out {
 }
 
 /// the second step of a two-step collect_into history: a small map-only parallel collect into `c`
-fn extra_step<T: Elem, C: ParCollectInto<T>>(c: C, n: usize, threads: usize) -> C {
+fn extra_step<T: Elem, C: ParCollectInto<T>>(c: C, n: usize, params: (NtModel, CsModel)) -> C {
     let v: Vec<T> = (0..n).filter_map(|i| T::prefix(1000 + i, (i % 16) as u32)).collect();
     if v.is_empty() {
         return c;
     }
-    v.into_par().num_threads(threads).chunk_size(1).map(|x| x).collect_into(c)
+    // the second step runs under the parameters of the case (sequential cases stay sequential, Max(n) stays Max(n),
+    // Exact(c) stays Exact(c)): the properties about parameters hold for it as well
+    let nt = match params.0 {
+        NtModel::Auto => NumThreads::Auto,
+        NtModel::Max(n) => NumThreads::Max(nz(n)),
+    };
+    let cs = match params.1 {
+        CsModel::Auto => ChunkSize::Auto,
+        CsModel::Exact(c) => ChunkSize::Exact(nz(c)),
+        CsModel::Min(c) => ChunkSize::Min(nz(c)),
+    };
+    v.into_par().num_threads(nt).chunk_size(cs).map(|x| x).collect_into(c)
 }
 
-fn collect_into_target<P: Par>(p: P, target: Target, prefix: &[u32], spare: usize, threads: usize) -> Out
+fn collect_into_target<P: Par>(p: P, target: Target, prefix: &[u32], spare: usize, params: (NtModel, CsModel)) -> Out
 where
     P::Item: Elem,
 {
     let (extras, extras_first) = second_step(spare as u16);
-    // the second step runs under the thread limit of the case (sequential cases stay sequential, Max(n) stays Max(n))
-    let th = threads;
+    let th = params;
     let pre = |i: usize| <P::Item as Elem>::prefix(i, prefix[i]);
     match target {
         Target::Vec => {
@@ -422,7 +432,7 @@ where
     P::Item: Elem,
 {
     Some(match &rc.term {
-        Term::CollectInto { target: Target::Vec, prefix, spare } => collect_into_target(p, Target::Vec, prefix, *spare as usize, match rc.case.final_params().0 { NtModel::Max(n) => n.max(1), NtModel::Auto => 3 }),
+        Term::CollectInto { target: Target::Vec, prefix, spare } => collect_into_target(p, Target::Vec, prefix, *spare as usize, rc.case.final_params()),
         Term::ForEach => {
             p.for_each(move |x| {
                 let v = x.v();
@@ -489,7 +499,7 @@ impl TermSet for Full {
                 let r = p.collect();
                 seq_of(r)
             }
-            Term::CollectInto { target, prefix, spare } => collect_into_target(p, *target, prefix, *spare as usize, match rc.case.final_params().0 { NtModel::Max(n) => n.max(1), NtModel::Auto => 3 }),
+            Term::CollectInto { target, prefix, spare } => collect_into_target(p, *target, prefix, *spare as usize, rc.case.final_params()),
             Term::Fold { op } => {
                 let op = *op;
                 let r = p.fold(
